@@ -589,12 +589,54 @@ func (fc *FuncCtx) driftf(fr *Frame, f string, a ...interface{}) {
 	fc.u.Obls = append(fc.u.Obls, o)
 }
 
-func (fc *FuncCtx) enterLoop(fr *Frame, li *loopInfo, cur *State) *State {
-	var spec *LoopSpec
-	if fr.con != nil {
-		spec = fr.con.Loops[li.ordinal]
+// loopSpec: the contract's invariants for the loop plus, for a `range` loop over a slice, the engine's own
+// invariant that the hidden index variable is >= -1 (proved like any other invariant: init + preserve).
+func (fc *FuncCtx) loopSpec(fr *Frame, li *loopInfo) *LoopSpec {
+	key := fmt.Sprintf("%d:%d", fr.id, li.ordinal)
+	if sp, ok := fc.loopSpecs[key]; ok {
+		return sp
 	}
-	if spec == nil || len(spec.Invariants) == 0 {
+	out := &LoopSpec{}
+	if fr.con != nil {
+		if sp := fr.con.Loops[li.ordinal]; sp != nil {
+			out.Invariants = append(out.Invariants, sp.Invariants...)
+		}
+	}
+	// rangeindex variables updated in this loop's header
+	var all []*ssa.Alloc
+	for _, b := range fr.fn.Blocks {
+		for _, ins := range b.Instrs {
+			if a, ok := ins.(*ssa.Alloc); ok && a.Comment == "rangeindex" {
+				all = append(all, a)
+			}
+		}
+	}
+	for k, a := range all {
+		written := false
+		for _, ins := range li.header.Instrs {
+			if st, ok := ins.(*ssa.Store); ok && st.Addr == a {
+				written = true
+			}
+		}
+		if !written {
+			continue
+		}
+		src := fmt.Sprintf("rangeindex#%d >= -1 && rangeindex#%d < 4611686018427387904", k+1, k+1)
+		e, err := ParseExpr(src)
+		if err == nil {
+			out.Invariants = append(out.Invariants, &Clause{Label: "range-index", Src: src, E: e})
+		}
+	}
+	if fc.loopSpecs == nil {
+		fc.loopSpecs = map[string]*LoopSpec{}
+	}
+	fc.loopSpecs[key] = out
+	return out
+}
+
+func (fc *FuncCtx) enterLoop(fr *Frame, li *loopInfo, cur *State) *State {
+	spec := fc.loopSpec(fr, li)
+	if len(spec.Invariants) == 0 {
 		fc.unsupported("loop %d of %s has no invariant in the contract", li.ordinal, fr.prefix)
 	}
 	pos := li.minPos
@@ -665,7 +707,7 @@ func (fc *FuncCtx) enterLoop(fr *Frame, li *loopInfo, cur *State) *State {
 }
 
 func (fc *FuncCtx) exitLoopBackEdge(fr *Frame, li *loopInfo, st *State, pos token.Pos) {
-	spec := fr.con.Loops[li.ordinal]
+	spec := fc.loopSpec(fr, li)
 	for i, inv := range spec.Invariants {
 		ev := fc.newEnv(fr, st, fr.entry)
 		g := ev.evalBool(inv.E)
